@@ -180,7 +180,7 @@ def gen_join_case(rng):
                 f"inner_join({x} as {a1}, {y} as {a2} keep {a1}#Me_1, {a2}#Me_2)",
                 f"left_join({x} as {a1}, {y} as {a2} keep {a1}#Me_2, {a2}#Me_1)",
                 f"inner_join({x} as {a1}, {y} as {a2} drop {a1}#Me_1, {a2}#Me_2)",
-                f"inner_join({x} as {a1}, {y} as {a2} rename {a1}#Me_1 to Me_8, {a2}#Me_1 to Me_9 keep Me_8, Me_9)[rename Me_8 to Me_1, Me_9 to Me_2]",
+                f"inner_join({x} as {a1}, {y} as {a2} keep {a1}#Me_1, {a2}#Me_2 rename {a1}#Me_1 to Me_8, {a2}#Me_2 to Me_9)[rename Me_8 to Me_1, Me_9 to Me_2]",
                 f"inner_join({x} as {a1}, {y} as {a2} calc Me_7 := {a1}#Me_1 + {a2}#Me_1 keep Me_7, {a1}#Me_2)[rename Me_7 to Me_1]",
             ])
         elif kind < 0.8:
@@ -237,7 +237,8 @@ def run_shard(spec, emit):
         if not bud.ok():
             break
         run_gen(gen_case(rng), emit, rng, spec["tier"])
-        run_gen(gen_join_case(rng), emit, rng, spec["tier"])
+        for _ in range(3):
+            run_gen(gen_join_case(rng), emit, rng, spec["tier"])
     for c in rider.corpus_slice(spec, quick_fraction=6, tag="C12"):
         if not bud.ok():
             emit({"v": "inc", "why": "cut by wall-clock budget"})
